@@ -3,6 +3,7 @@ package checks
 import (
 	"encoding/json"
 	"fmt"
+	"os"
 	"runtime/debug"
 	"strings"
 	"testing"
@@ -29,6 +30,7 @@ type c11Spec struct {
 	Head     []byte `json:"head,omitempty"`    // overrides image[0:len(Head)] (arbitrary header bytes)
 	Program  []byte `json:"program,omitempty"` // placed at 0x0100 (after Head)
 	Far      bool   `json:"far,omitempty"`     // place Program at 0x0150 behind a JP at 0x0100, clear of the header bytes
+	Raw      []byte `json:"raw,omitempty"`     // the image itself, byte for byte (native fuzzing); everything else is ignored
 }
 
 type c11Op struct {
@@ -44,6 +46,9 @@ type c11Case struct {
 }
 
 func c11Build(s c11Spec) []byte {
+	if s.Raw != nil {
+		return append([]byte(nil), s.Raw...)
+	}
 	n := s.Len
 	if n < 0 {
 		n = (2 << (s.RomSize & 15)) * 0x4000
@@ -404,6 +409,79 @@ func TestC11(t *testing.T) {
 			if !c.Fail("crash", sig, err.Error(), cas) {
 				rt.Fatalf("%v", err)
 			}
+		}
+	})
+}
+
+// c11FuzzCase decodes fuzzer bytes: the image is the data up to the last 64
+// bytes (padded to the length the header declares when pad is odd), the tail
+// becomes direct accesses, and the CPU then runs for a while.
+func c11FuzzCase(data []byte, pad uint8) c11Case {
+	tail := data
+	img := data
+	if len(data) > 64 {
+		img, tail = data[:len(data)-64], data[len(data)-64:]
+	}
+	raw := append([]byte{}, img...)
+	if pad&1 == 1 && len(raw) > 0x149 {
+		want := 0x8000
+		if raw[0x148] <= 8 {
+			want = (2 << raw[0x148]) * 0x4000
+		}
+		if want > 1<<20 {
+			want = 1 << 20
+			raw[0x148] = 5
+		}
+		for len(raw) < want {
+			raw = append(raw, raw[len(raw)%len(img)])
+		}
+		raw = raw[:want]
+	}
+	cas := c11Case{Spec: c11Spec{Raw: raw}}
+	for i := 0; i+3 < len(tail); i += 4 {
+		a := uint16(tail[i])<<8 | uint16(tail[i+1])
+		switch tail[i+3] & 3 {
+		case 0:
+			cas.Ops = append(cas.Ops, c11Op{Kind: "r", A: a})
+		case 3:
+			cas.Ops = append(cas.Ops, c11Op{Kind: "hw", N: int(tail[i+2])})
+		default:
+			cas.Ops = append(cas.Ops, c11Op{Kind: "w", A: a, V: tail[i+2]})
+		}
+	}
+	cas.Ops = append(cas.Ops, c11Op{Kind: "run", N: 3000})
+	return cas
+}
+
+// FuzzC11Image is the coverage-guided byte-level target of the thorough tier:
+// any byte string as a ROM image, then direct accesses and a CPU run. The
+// oracle is the same as everywhere in C11 (no panic after construction).
+func FuzzC11Image(f *testing.F) {
+	for _, ct := range []byte{0x00, 0x01, 0x03, 0x06, 0x10, 0x13, 0x1b, 0x1e, 0xfc} {
+		for _, rs := range []byte{0, 1, 7, 8, 0x52} {
+			head := make([]byte, 0x150+64)
+			head[0x100], head[0x101], head[0x102] = 0xc3, 0x50, 0x01
+			head[0x147], head[0x148], head[0x149] = ct, rs, 3
+			copy(head[0x150:], []byte{0x3e, 0x0a, 0xea, 0x00, 0x00, 0x3e, 0xff, 0xea, 0x00, 0x21, 0xea, 0x00, 0x40, 0xfa, 0x00, 0xa0, 0xea, 0xff, 0xbf, 0x31, 0x08, 0xfe, 0xc5, 0xc5, 0x18, 0xfe})
+			f.Add(head, byte(1))
+			f.Add(head, byte(0))
+		}
+	}
+	f.Add([]byte{}, byte(0))
+	f.Add(make([]byte, 0x147), byte(0))
+	f.Add(make([]byte, 0x8000), byte(0))
+	f.Fuzz(func(t *testing.T, data []byte, pad byte) {
+		if len(data) > 1<<16 {
+			return
+		}
+		cas := c11FuzzCase(data, pad)
+		_, sig, err := c11Run(cas)
+		if err != nil {
+			b, _ := json.Marshal(map[string]interface{}{"property": "C11", "check": "crash", "sig": sig, "msg": err.Error(), "case": cas})
+			if dir := os.Getenv("VERIF_WORK"); dir != "" {
+				os.WriteFile(dir+"/fail-C11-fuzz.json", b, 0o644)
+			}
+			t.Fatalf("%v", err)
 		}
 	})
 }
